@@ -36,7 +36,7 @@
 //! ```
 use ironplc_dsl::{
     common::*,
-    core::{FileId, Id, SourceSpan},
+    core::{FileId, Id, Located, SourceSpan},
     diagnostic::{Diagnostic, Label},
     visitor::Visitor,
 };
@@ -66,16 +66,10 @@ pub fn apply(lib: Library) -> Result<Library, Vec<Diagnostic>> {
             LibraryElementKind::DataTypeDeclaration(decl) => {
                 match decl {
                     DataTypeDeclarationKind::Enumeration(decl) => {
-                        types_by_name.insert(
-                            decl.type_name.name.clone(),
-                            DataTypeDeclarationKind::Enumeration(decl),
-                        );
+                        insert_unique(&mut types_by_name, decl.type_name.name.clone(), DataTypeDeclarationKind::Enumeration(decl))?;
                     }
                     DataTypeDeclarationKind::Subrange(decl) => {
-                        types_by_name.insert(
-                            decl.type_name.name.clone(),
-                            DataTypeDeclarationKind::Subrange(decl),
-                        );
+                        insert_unique(&mut types_by_name, decl.type_name.name.clone(), DataTypeDeclarationKind::Subrange(decl))?;
                     }
                     DataTypeDeclarationKind::Simple(decl) => {
                         // Can refer to other declarations, but does not have any declarations itself
@@ -84,22 +78,13 @@ pub fn apply(lib: Library) -> Result<Library, Vec<Diagnostic>> {
                         ));
                     }
                     DataTypeDeclarationKind::Array(decl) => {
-                        types_by_name.insert(
-                            decl.type_name.name.clone(),
-                            DataTypeDeclarationKind::Array(decl),
-                        );
+                        insert_unique(&mut types_by_name, decl.type_name.name.clone(), DataTypeDeclarationKind::Array(decl))?;
                     }
                     DataTypeDeclarationKind::Structure(decl) => {
-                        types_by_name.insert(
-                            decl.type_name.name.clone(),
-                            DataTypeDeclarationKind::Structure(decl),
-                        );
+                        insert_unique(&mut types_by_name, decl.type_name.name.clone(), DataTypeDeclarationKind::Structure(decl))?;
                     }
                     DataTypeDeclarationKind::StructureInitialization(decl) => {
-                        types_by_name.insert(
-                            decl.type_name.name.clone(),
-                            DataTypeDeclarationKind::StructureInitialization(decl),
-                        );
+                        insert_unique(&mut types_by_name, decl.type_name.name.clone(), DataTypeDeclarationKind::StructureInitialization(decl))?;
                     }
                     DataTypeDeclarationKind::String(decl) => {
                         // Can refer to other declarations, but does not have any declarations itself
@@ -108,36 +93,21 @@ pub fn apply(lib: Library) -> Result<Library, Vec<Diagnostic>> {
                         ));
                     }
                     DataTypeDeclarationKind::LateBound(decl) => {
-                        types_by_name.insert(
-                            decl.data_type_name.name.clone(),
-                            DataTypeDeclarationKind::LateBound(decl),
-                        );
+                        insert_unique(&mut types_by_name, decl.data_type_name.name.clone(), DataTypeDeclarationKind::LateBound(decl))?;
                     }
                 }
             }
             LibraryElementKind::FunctionDeclaration(decl) => {
-                elems_by_name.insert(
-                    decl.name.clone(),
-                    LibraryElementKind::FunctionDeclaration(decl),
-                );
+                insert_unique(&mut elems_by_name, decl.name.clone(), LibraryElementKind::FunctionDeclaration(decl))?;
             }
             LibraryElementKind::FunctionBlockDeclaration(decl) => {
-                elems_by_name.insert(
-                    decl.name.clone(),
-                    LibraryElementKind::FunctionBlockDeclaration(decl),
-                );
+                insert_unique(&mut elems_by_name, decl.name.clone(), LibraryElementKind::FunctionBlockDeclaration(decl))?;
             }
             LibraryElementKind::ProgramDeclaration(decl) => {
-                elems_by_name.insert(
-                    decl.name.clone(),
-                    LibraryElementKind::ProgramDeclaration(decl),
-                );
+                insert_unique(&mut elems_by_name, decl.name.clone(), LibraryElementKind::ProgramDeclaration(decl))?;
             }
             LibraryElementKind::ConfigurationDeclaration(decl) => {
-                elems_by_name.insert(
-                    decl.name.clone(),
-                    LibraryElementKind::ConfigurationDeclaration(decl),
-                );
+                insert_unique(&mut elems_by_name, decl.name.clone(), LibraryElementKind::ConfigurationDeclaration(decl))?;
             }
         }
     }
@@ -153,6 +123,26 @@ pub fn apply(lib: Library) -> Result<Library, Vec<Diagnostic>> {
     elements.extend(sorted_ids.iter().filter_map(|id| elems_by_name.remove(id)));
 
     Ok(Library { elements })
+}
+
+/// Adds the declaration to the map of declarations by name.
+///
+/// Two declarations with the same name are an error. Without this check the
+/// second declaration would silently replace the first one in the map.
+fn insert_unique<V>(
+    map: &mut HashMap<Id, V>,
+    name: Id,
+    declaration: V,
+) -> Result<(), Vec<Diagnostic>> {
+    if let Some((first, _)) = map.get_key_value(&name) {
+        return Err(vec![Diagnostic::problem(
+            Problem::DeclarationNameDuplicated,
+            Label::span(name.span(), "Duplicate declaration"),
+        )
+        .with_secondary(Label::span(first.span(), "First declaration"))]);
+    }
+    map.insert(name, declaration);
+    Ok(())
 }
 
 struct DeclarationsGraph {
